@@ -69,7 +69,7 @@ type acked struct {
 
 func body(w *run.Worker) {
 	ctx := context.Background()
-	w.Cases("schedule", w.N(900, 20000), func(c *run.Case) { schedule(ctx, w, c) })
+	w.Cases("schedule", w.N(900, 9000), func(c *run.Case) { schedule(ctx, w, c) })
 }
 
 type env struct {
